@@ -30,12 +30,16 @@ Definition is_ident (n : chars) : bool :=
 Lemma alnum_solid : forall c, in_str alnum_ c = true -> solid c = true.
 Proof.
   intros c H. unfold in_str, cmem in H. apply existsb_exists in H. destruct H as [x [Hx E]].
-  apply ceq_eq in E. subst x. revert Hx. vm_compute. intuition (subst; reflexivity).
+  apply ceq_eq in E. subst x.
+  assert (A : forallb solid (chars_of alnum_) = true) by (vm_compute; reflexivity).
+  rewrite forallb_forall in A. apply A. exact Hx.
 Qed.
 Lemma alpha_alnum : forall c, in_str alpha_ c = true -> in_str alnum_ c = true.
 Proof.
   intros c H. unfold in_str, cmem in *. apply existsb_exists in H. destruct H as [x [Hx E]].
-  apply existsb_exists. exists x. split; [|exact E]. revert Hx. vm_compute. intuition.
+  apply existsb_exists. exists x. split; [|exact E].
+  assert (A : forallb (fun c => if in_dec ascii_dec c (chars_of alnum_) then true else false) (chars_of alpha_) = true) by (vm_compute; reflexivity).
+  rewrite forallb_forall in A. specialize (A x Hx). destruct (in_dec ascii_dec x (chars_of alnum_)) as [i|]; [exact i | discriminate].
 Qed.
 Lemma blank_not_alnum : in_str alnum_ " "%char = false.
 Proof. reflexivity. Qed.
@@ -97,7 +101,10 @@ Qed.
 Lemma alnum_kw : forall c, in_str alnum_ c = true -> is_kwchar c = true /\ c <> " "%char.
 Proof.
   intros c H. unfold in_str, cmem in H. apply existsb_exists in H. destruct H as [x [Hx E]].
-  apply ceq_eq in E. subst x. revert Hx. vm_compute. intuition (subst; try reflexivity; discriminate).
+  apply ceq_eq in E. subst x.
+  assert (A : forallb (fun c => is_kwchar c && negb (ceq c " "%char)) (chars_of alnum_) = true) by (vm_compute; reflexivity).
+  rewrite forallb_forall in A. specialize (A c Hx). apply andb_true_iff in A. destruct A as [A1 A2]. split; [exact A1|].
+  intros X. subst c. discriminate.
 Qed.
 
 (* k does not continue past the word and its blank *)
